@@ -141,6 +141,478 @@ fn exec_pure(op: &str) -> String {
     }
 }
 
+
+// ------------------------------------------------------------------------------------------------ socket rig
+//
+// The public `RemoteTask` over an in-memory duplex web socket (ratchet on `tokio::io::duplex`), on a paused
+// current-thread runtime: after every op the harness sleeps (virtual time), which returns exactly when every task is
+// idle, then reports what every attached downlink, every resolved agent channel and the peer observed.
+mod sock {
+    use super::*;
+    use futures::{SinkExt, StreamExt};
+    use ratchet::{Message, NoExt, Role, WebSocket, WebSocketConfig};
+    use std::collections::{HashMap, HashSet};
+    use std::num::NonZeroUsize;
+    use std::sync::{Arc, Mutex};
+    use std::time::Duration;
+    use swimos_messages::protocol::{
+        RawRequestMessageDecoder, RawRequestMessageEncoder, RawResponseMessageDecoder, RawResponseMessageEncoder,
+    };
+    use swimos_messages::remote_protocol::{AttachClient, FindNode, NodeConnectionRequest};
+    use swimos_remote::RemoteTask;
+    use swimos_utilities::byte_channel::{byte_channel, ByteWriter};
+    use swimos_utilities::trigger;
+    use tokio::sync::{mpsc, oneshot};
+    use tokio::task::JoinHandle;
+    use tokio_util::codec::{FramedRead, FramedWrite};
+
+    const ID: Uuid = Uuid::from_u128(1484);
+    const BUF: usize = 1 << 16;
+
+    #[derive(Debug, Clone)]
+    enum Ev {
+        Find(String),
+        Agent(usize, String),
+        Dl(u64, String),
+        Peer(String),
+    }
+
+    type AgentWriter = FramedWrite<ByteWriter, RawResponseMessageEncoder>;
+    type DlWriter = FramedWrite<ByteWriter, RawRequestMessageEncoder>;
+
+    struct AgentEnd {
+        node: String,
+        writer: Option<AgentWriter>,
+        reader_task: Option<JoinHandle<()>>,
+    }
+
+    struct DlEnd {
+        node: String,
+        lane: String,
+        writer: Option<DlWriter>,
+        reader_task: Option<JoinHandle<()>>,
+    }
+
+    fn body_hex(b: &[u8]) -> String {
+        hex(b)
+    }
+
+    fn origin_tag(o: Uuid) -> &'static str {
+        if o == ID {
+            ""
+        } else {
+            "!origin"
+        }
+    }
+
+    fn render_request(m: &BytesRequestMessage) -> String {
+        let (k, b) = match &m.envelope {
+            Operation::Link => ("link", "none".to_string()),
+            Operation::Sync => ("sync", "none".to_string()),
+            Operation::Unlink => ("unlink", "none".to_string()),
+            Operation::Command(b) => ("command", body_hex(b)),
+        };
+        format!("{},{},{},{}{}", k, hs(m.path.node.as_str()), hs(m.path.lane.as_str()), b, origin_tag(m.origin))
+    }
+
+    fn render_response(m: &BytesResponseMessage) -> String {
+        let (k, b) = match &m.envelope {
+            Notification::Linked => ("linked", "none".to_string()),
+            Notification::Synced => ("synced", "none".to_string()),
+            Notification::Unlinked(None) => ("unlinked", "none".to_string()),
+            Notification::Unlinked(Some(b)) => ("unlinked", body_hex(b)),
+            Notification::Event(b) => ("event", body_hex(b)),
+        };
+        format!("{},{},{},{}{}", k, hs(m.path.node.as_str()), hs(m.path.lane.as_str()), b, origin_tag(m.origin))
+    }
+
+    pub struct Rig {
+        ev_tx: mpsc::UnboundedSender<Ev>,
+        ev_rx: mpsc::UnboundedReceiver<Ev>,
+        attach_tx: mpsc::Sender<AttachClient>,
+        stop_tx: Option<trigger::Sender>,
+        peer_tx: ratchet::Sender<tokio::io::DuplexStream, <NoExt as ratchet::SplittableExtension>::SplitEncoder>,
+        resolvable: Arc<Mutex<HashSet<String>>>,
+        agents: Arc<Mutex<Vec<AgentEnd>>>,
+        dls: HashMap<u64, DlEnd>,
+        task: Option<JoinHandle<()>>,
+        counter: u64,
+        _aux: Vec<JoinHandle<()>>,
+    }
+
+    impl Rig {
+        pub fn new() -> Rig {
+            let (stop_tx, stop_rx) = trigger::trigger();
+            let (attach_tx, attach_rx) = mpsc::channel(8);
+            let (find_tx, mut find_rx) = mpsc::channel::<FindNode>(8);
+            let (server, client) = tokio::io::duplex(BUF);
+            let config = WebSocketConfig::default();
+            let server = WebSocket::from_upgraded(config, server, Some(NoExt), BytesMut::new(), Role::Server);
+            let client = WebSocket::from_upgraded(config, client, Some(NoExt), BytesMut::new(), Role::Client);
+            let (peer_tx, mut peer_rx) = client.split().expect("split");
+            let (ev_tx, ev_rx) = mpsc::unbounded_channel();
+
+            let remote = RemoteTask::new(
+                ID,
+                stop_rx,
+                server,
+                attach_rx,
+                Some(find_tx),
+                NonZeroUsize::new(8).unwrap(),
+                Duration::from_secs(5),
+            );
+            let task = tokio::spawn(remote.run());
+
+            // peer reader
+            let tx = ev_tx.clone();
+            let peer_task = tokio::spawn(async move {
+                let mut buf = BytesMut::new();
+                loop {
+                    buf.clear();
+                    match peer_rx.read(&mut buf).await {
+                        Ok(Message::Text) => {
+                            let _ = tx.send(Ev::Peer(hex(buf.as_ref())));
+                        }
+                        Ok(Message::Close(reason)) => {
+                            let code = match reason {
+                                Some(r) => format!("{:?}", r.code).to_lowercase(),
+                                None => "none".to_string(),
+                            };
+                            let _ = tx.send(Ev::Peer(format!("close:{}", code)));
+                            break;
+                        }
+                        Ok(Message::Binary) => {
+                            let _ = tx.send(Ev::Peer("binary".into()));
+                        }
+                        Ok(_) => {}
+                        Err(_) => {
+                            let _ = tx.send(Ev::Peer("gone".into()));
+                            break;
+                        }
+                    }
+                }
+            });
+
+            // resolver: answers `FindNode` from the set of resolvable nodes
+            let resolvable: Arc<Mutex<HashSet<String>>> = Default::default();
+            let agents: Arc<Mutex<Vec<AgentEnd>>> = Default::default();
+            let (res2, ag2, tx) = (resolvable.clone(), agents.clone(), ev_tx.clone());
+            let resolver = tokio::spawn(async move {
+                while let Some(FindNode { node, lane, request }) = find_rx.recv().await {
+                    let NodeConnectionRequest::Warp { promise, .. } = request else {
+                        continue;
+                    };
+                    let lane_s = lane.as_ref().map(|l| hs(l.as_str())).unwrap_or_else(|| "none".into());
+                    if res2.lock().unwrap().contains(node.as_str()) {
+                        let (in_tx, in_rx) = byte_channel(NonZeroUsize::new(BUF).unwrap());
+                        let (out_tx, out_rx) = byte_channel(NonZeroUsize::new(BUF).unwrap());
+                        let idx = ag2.lock().unwrap().len();
+                        let _ = tx.send(Ev::Find(format!("{},{}:a{}", hs(node.as_str()), lane_s, idx)));
+                        let tx2 = tx.clone();
+                        let reader_task = tokio::spawn(async move {
+                            let mut rd = FramedRead::new(in_rx, RawRequestMessageDecoder);
+                            loop {
+                                match rd.next().await {
+                                    Some(Ok(m)) => {
+                                        let _ = tx2.send(Ev::Agent(idx, render_request(&m)));
+                                    }
+                                    Some(Err(_)) => {
+                                        let _ = tx2.send(Ev::Agent(idx, "decode-error".into()));
+                                        break;
+                                    }
+                                    None => {
+                                        let _ = tx2.send(Ev::Agent(idx, "end".into()));
+                                        break;
+                                    }
+                                }
+                            }
+                        });
+                        ag2.lock().unwrap().push(AgentEnd {
+                            node: node.to_string(),
+                            writer: Some(FramedWrite::new(out_tx, RawResponseMessageEncoder)),
+                            reader_task: Some(reader_task),
+                        });
+                        let _ = promise.send(Ok((in_tx, out_rx)));
+                    } else {
+                        let _ = tx.send(Ev::Find(format!("{},{}:none", hs(node.as_str()), lane_s)));
+                        let _ = promise.send(Err(NoSuchAgent { node, lane }.into()));
+                    }
+                }
+            });
+
+            Rig {
+                ev_tx,
+                ev_rx,
+                attach_tx,
+                stop_tx: Some(stop_tx),
+                peer_tx,
+                resolvable,
+                agents,
+                dls: HashMap::new(),
+                task: Some(task),
+                counter: 0,
+                _aux: vec![peer_task, resolver],
+            }
+        }
+
+        /// Run until every task is idle, then report the events in canonical order.
+        async fn settle(&mut self, tags: Option<&HashMap<String, String>>) -> String {
+            tokio::time::sleep(Duration::from_millis(50)).await;
+            let mut finds = vec![];
+            let mut ag: Vec<(usize, String)> = vec![];
+            let mut dl: Vec<(u64, String)> = vec![];
+            let mut peer: Vec<String> = vec![];
+            while let Ok(ev) = self.ev_rx.try_recv() {
+                match ev {
+                    Ev::Find(s) => finds.push(format!("f:{}", s)),
+                    Ev::Agent(i, s) => ag.push((i, format!("a{}:{}", i, s))),
+                    Ev::Dl(i, s) => dl.push((i, format!("d{}:{}", i, s))),
+                    Ev::Peer(s) => peer.push(s),
+                }
+            }
+            ag.sort_by_key(|e| e.0);
+            dl.sort_by_key(|e| e.0);
+            let mut out: Vec<String> = finds;
+            out.extend(ag.into_iter().map(|e| e.1));
+            out.extend(dl.into_iter().map(|e| e.1));
+            match tags {
+                None => out.extend(peer.into_iter().map(|p| format!("p:{}", p))),
+                Some(tags) => {
+                    // burst: group the peer's frames by the source that sent them (stable)
+                    let mut tagged: Vec<(String, String)> = peer
+                        .into_iter()
+                        .map(|p| {
+                            let src = unhex(&p)
+                                .and_then(|b| String::from_utf8(b).ok())
+                                .and_then(|f| f.rsplit(' ').next().and_then(|tag| tags.get(tag).cloned()))
+                                .unwrap_or_else(|| "?".to_string());
+                            (src, p)
+                        })
+                        .collect();
+                    tagged.sort_by(|a, b| src_key(&a.0).cmp(&src_key(&b.0)));
+                    out.extend(tagged.into_iter().map(|(s, p)| format!("p[{}]:{}", s, p)));
+                }
+            }
+            if let Some(h) = self.task.as_ref() {
+                if h.is_finished() {
+                    let h = self.task.take().unwrap();
+                    match h.await {
+                        Ok(()) => out.push("t:done".into()),
+                        Err(e) if e.is_panic() => out.push("t:panic".into()),
+                        Err(_) => out.push("t:cancelled".into()),
+                    }
+                }
+            }
+            if out.is_empty() {
+                "-".into()
+            } else {
+                format!("evs {}", out.join(" "))
+            }
+        }
+
+        fn request(kind: &str, node: &str, lane: &str, body: Option<&str>) -> Option<BytesRequestMessage> {
+            let path = RelativeAddress::new(BytesStr::from(node), BytesStr::from(lane));
+            let b = Bytes::copy_from_slice(body.unwrap_or("").as_bytes());
+            let op = match kind {
+                "link" => Operation::Link,
+                "sync" => Operation::Sync,
+                "unlink" => Operation::Unlink,
+                "command" => Operation::Command(b),
+                _ => return None,
+            };
+            Some(RequestMessage { origin: Uuid::from_u128(99), path, envelope: op })
+        }
+
+        fn response(kind: &str, node: &str, lane: &str, body: Option<&str>) -> Option<BytesResponseMessage> {
+            let path = RelativeAddress::new(BytesStr::from(node), BytesStr::from(lane));
+            let b = Bytes::copy_from_slice(body.unwrap_or("").as_bytes());
+            let n = match kind {
+                "linked" => Notification::Linked,
+                "synced" => Notification::Synced,
+                "unlinked" => Notification::Unlinked(body.map(|_| b)),
+                "event" => Notification::Event(b),
+                _ => return None,
+            };
+            Some(ResponseMessage { origin: Uuid::from_u128(98), path, envelope: n })
+        }
+
+        async fn send_from(&mut self, src: &str, kind: &str, node: &str, lane: &str, body: Option<&str>) {
+            if let Some(id) = src.strip_prefix('d').and_then(|s| s.parse::<u64>().ok()) {
+                if let (Some(d), Some(m)) = (self.dls.get_mut(&id), Self::request(kind, node, lane, body)) {
+                    if let Some(w) = d.writer.as_mut() {
+                        let _ = w.send(m).await;
+                    }
+                }
+            } else if let Some(i) = src.strip_prefix('a').and_then(|s| s.parse::<usize>().ok()) {
+                let w = self.agents.lock().unwrap().get_mut(i).and_then(|a| a.writer.take());
+                if let (Some(mut w), Some(m)) = (w, Self::response(kind, node, lane, body)) {
+                    let _ = w.send(m).await;
+                    if let Some(a) = self.agents.lock().unwrap().get_mut(i) {
+                        a.writer = Some(w);
+                    }
+                }
+            }
+        }
+
+        pub async fn exec(&mut self, op: &str) -> String {
+            let parts: Vec<&str> = op.split_whitespace().collect();
+            let s = |h: &str| unhex(h).and_then(|b| String::from_utf8(b).ok());
+            match parts.as_slice() {
+                ["agents", nodes @ ..] => {
+                    let set: HashSet<String> = nodes.iter().filter_map(|h| s(h)).collect();
+                    *self.resolvable.lock().unwrap() = set;
+                    "ok".into()
+                }
+                ["attach", id, n, l] => {
+                    let (Ok(id), Some(node), Some(lane)) = (id.parse::<u64>(), s(n), s(l)) else {
+                        return "bad-op".into();
+                    };
+                    let (in_tx, in_rx) = byte_channel(NonZeroUsize::new(BUF).unwrap());
+                    let (out_tx, out_rx) = byte_channel(NonZeroUsize::new(BUF).unwrap());
+                    let (done_tx, done_rx) = oneshot::channel();
+                    let req = AttachClient::AttachDownlink {
+                        downlink_id: Uuid::from_u128(id as u128),
+                        path: RelativeAddress::text(&node, &lane),
+                        sender: in_tx,
+                        receiver: out_rx,
+                        done: done_tx,
+                    };
+                    if self.attach_tx.send(req).await.is_err() {
+                        return "closed".into();
+                    }
+                    let r = tokio::time::timeout(Duration::from_millis(200), done_rx).await;
+                    if !matches!(r, Ok(Ok(Ok(())))) {
+                        return "closed".into();
+                    }
+                    let tx = self.ev_tx.clone();
+                    let reader_task = tokio::spawn(async move {
+                        let mut rd = FramedRead::new(in_rx, RawResponseMessageDecoder);
+                        loop {
+                            match rd.next().await {
+                                Some(Ok(m)) => {
+                                    let _ = tx.send(Ev::Dl(id, render_response(&m)));
+                                }
+                                Some(Err(_)) => {
+                                    let _ = tx.send(Ev::Dl(id, "decode-error".into()));
+                                    break;
+                                }
+                                None => {
+                                    let _ = tx.send(Ev::Dl(id, "end".into()));
+                                    break;
+                                }
+                            }
+                        }
+                    });
+                    self.dls.insert(
+                        id,
+                        DlEnd {
+                            node,
+                            lane,
+                            writer: Some(FramedWrite::new(out_tx, RawRequestMessageEncoder)),
+                            reader_task: Some(reader_task),
+                        },
+                    );
+                    let extra = self.settle(None).await;
+                    if extra == "-" {
+                        "ok".into()
+                    } else {
+                        format!("ok+{}", extra)
+                    }
+                }
+                ["in", f] => {
+                    let Some(frame) = s(f) else { return "bad-op".into() };
+                    let _ = self.peer_tx.write_text(frame).await;
+                    self.settle(None).await
+                }
+                ["send", src, kind, n, l, b] => {
+                    let (Some(node), Some(lane), Some(body)) = (s(n), s(l), opt_str(b)) else {
+                        return "bad-op".into();
+                    };
+                    self.send_from(src, kind, &node, &lane, body.as_deref()).await;
+                    self.settle(None).await
+                }
+                ["burst", srcs @ ..] => {
+                    let mut tags: HashMap<String, String> = HashMap::new();
+                    for src in srcs {
+                        let k = self.counter;
+                        self.counter += 1;
+                        let tag = format!("m{}", k);
+                        tags.insert(tag.clone(), src.to_string());
+                        if let Some(id) = src.strip_prefix('d').and_then(|s| s.parse::<u64>().ok()) {
+                            if let Some((node, lane)) = self.dls.get(&id).map(|d| (d.node.clone(), d.lane.clone())) {
+                                self.send_from(src, "command", &node, &lane, Some(&tag)).await;
+                            }
+                        } else if let Some(i) = src.strip_prefix('a').and_then(|s| s.parse::<usize>().ok()) {
+                            let node = self.agents.lock().unwrap().get(i).map(|a| a.node.clone());
+                            if let Some(node) = node {
+                                self.send_from(src, "event", &node, "l", Some(&tag)).await;
+                            }
+                        }
+                    }
+                    self.settle(Some(&tags)).await
+                }
+                ["detach", src] => {
+                    if let Some(id) = src.strip_prefix('d').and_then(|s| s.parse::<u64>().ok()) {
+                        if let Some(d) = self.dls.get_mut(&id) {
+                            d.writer = None;
+                            if let Some(h) = d.reader_task.take() {
+                                h.abort();
+                                let _ = h.await;
+                            }
+                        }
+                    } else if let Some(i) = src.strip_prefix('a').and_then(|s| s.parse::<usize>().ok()) {
+                        let h = {
+                            let mut g = self.agents.lock().unwrap();
+                            g.get_mut(i).and_then(|a| {
+                                a.writer = None;
+                                a.reader_task.take()
+                            })
+                        };
+                        if let Some(h) = h {
+                            h.abort();
+                            let _ = h.await;
+                        }
+                    }
+                    self.settle(None).await
+                }
+                ["stop"] => {
+                    if let Some(t) = self.stop_tx.take() {
+                        t.trigger();
+                    }
+                    self.settle(None).await
+                }
+                _ => "bad-op".into(),
+            }
+        }
+    }
+
+    /// canonical order of sources: agents by index, then downlinks by id
+    fn src_key(s: &str) -> (u8, u64) {
+        if let Some(i) = s.strip_prefix('a').and_then(|x| x.parse::<u64>().ok()) {
+            (0, i)
+        } else if let Some(i) = s.strip_prefix('d').and_then(|x| x.parse::<u64>().ok()) {
+            (1, i)
+        } else {
+            (2, 0)
+        }
+    }
+
+    pub fn run_case(ops: &[String], t: &mut Trace) {
+        let rt = tokio::runtime::Builder::new_current_thread()
+            .enable_time()
+            .start_paused(true)
+            .build()
+            .unwrap();
+        rt.block_on(async {
+            let mut rig = Rig::new();
+            for op in ops {
+                let o = rig.exec(op).await;
+                t.op(op, o);
+            }
+        });
+    }
+}
+
 const KINDS: [&str; 8] = ["link", "sync", "unlink", "command", "linked", "synced", "unlinked", "event"];
 
 /// String pool of the property's quantifier: empty, keywords, quotes, backslashes, controls, non-BMP, percent
@@ -355,6 +827,133 @@ fn gen_fuzz_frame(rng: &mut Rng) -> String {
     cs.into_iter().collect()
 }
 
+
+// ------------------------------------------------------------------------------------------------ route generator
+
+const R_NODES: [&str; 7] = ["/a", "/b", "a b", "true", "/a%20b", "/A", "n"];
+const R_LANES: [&str; 5] = ["x", "y", "", "x y", "X"];
+
+fn frame_of(kind: &str, node: &str, lane: &str, body: Option<&str>) -> String {
+    String::from_utf8(real_encode(kind, node, Some(lane), body).unwrap_or_default()).unwrap_or_default()
+}
+
+/// One case: several agents and downlinks attach to, write to and detach from one socket.
+fn gen_route_ops(rng: &mut Rng) -> Vec<String> {
+    let mut ops = vec![];
+    let mut resolvable: Vec<&str> = R_NODES.iter().copied().filter(|_| rng.chance(1, 2)).collect();
+    ops.push(format!("agents {}", resolvable.iter().map(|n| hs(n)).collect::<Vec<_>>().join(" ")).trim().to_string());
+    let mut next_dl = 0u64;
+    let mut dls: Vec<u64> = vec![]; // attached and not detached
+    let mut paths: Vec<(&str, &str)> = vec![]; // every path ever attached
+    let mut n_agents_upper = 0usize; // upper bound on the number of agent channels opened so far
+    let n = rng.range(4, 14);
+    for _ in 0..n {
+        let (mut node, mut lane) = (*rng.pick(&R_NODES), *rng.pick(&R_LANES));
+        if !paths.is_empty() && rng.chance(3, 5) {
+            // aim at a path somebody attached to (sometimes only its node or only its lane)
+            let (n, l) = *rng.pick(&paths);
+            match rng.below(6) {
+                0 => node = n,
+                1 => lane = l,
+                _ => {
+                    node = n;
+                    lane = l;
+                }
+            }
+        }
+        match rng.below(100) {
+            0..=21 => {
+                paths.push((node, lane));
+                ops.push(format!("attach {} {} {}", next_dl, hs(node), hs(lane)));
+                dls.push(next_dl);
+                next_dl += 1;
+            }
+            22..=44 => {
+                // a notification from the peer
+                let kind = *rng.pick(&["linked", "synced", "unlinked", "event", "event", "event"]);
+                let body = match kind {
+                    "event" => Some(*rng.pick(&["1", "@update(key:1) 2", "", "\"s\"", "{a:1}"])),
+                    "unlinked" => *rng.pick(&[None, None, Some("@laneNotFound"), Some("@nodeNotFound"), Some("")]),
+                    _ => None,
+                };
+                ops.push(format!("in {}", hs(&frame_of(kind, node, lane, body))));
+            }
+            45..=62 => {
+                // a request from the peer
+                let kind = *rng.pick(&["link", "sync", "unlink", "command", "command"]);
+                let body = if kind == "command" { Some(*rng.pick(&["1", "@clear", ""])) } else { None };
+                ops.push(format!("in {}", hs(&frame_of(kind, node, lane, body))));
+                n_agents_upper += 1;
+            }
+            63..=66 => {
+                // hand-made but valid variants, auth, and (rarely) invalid frames which end the task
+                let f = match rng.below(10) {
+                    8 => "@event(node:,lane:x)".to_string(),
+                    9 => "@link(node:\"/a\",lane:\"\\ud800\")".to_string(),
+                    0 => format!("@event( node : \"{}\" , lane : x ) 5", "/a"),
+                    1 => "@event(lane:x,node:\"/a\")6".to_string(),
+                    2 => "@auth(node:a)".to_string(),
+                    3 => "@deauth".to_string(),
+                    4 => "@command(node:\"/a\";lane:x)\t7".to_string(),
+                    5 => "@linked(node:\"/a\",lane:x,node:\"/b\")".to_string(),
+                    6 => "@event(node:\"/a\")".to_string(),
+                    _ => "not an envelope".to_string(),
+                };
+                ops.push(format!("in {}", hs(&f)));
+                n_agents_upper += 1;
+            }
+            67..=76 if !dls.is_empty() || n_agents_upper > 0 => {
+                // one message from a source
+                if !dls.is_empty() && rng.chance(1, 2) {
+                    let d = *rng.pick(&dls);
+                    let kind = *rng.pick(&["link", "sync", "unlink", "command"]);
+                    let body = if kind == "command" { hs(*rng.pick(&["1", "@remove(key:2)", ""])) } else { "none".into() };
+                    ops.push(format!("send d{} {} {} {} {}", d, kind, hs(node), hs(lane), body));
+                } else if n_agents_upper > 0 {
+                    let a = rng.below(n_agents_upper as u64);
+                    let kind = *rng.pick(&["linked", "synced", "unlinked", "event"]);
+                    let body = match kind {
+                        "event" => hs(*rng.pick(&["1", "@update(key:1) 2", ""])),
+                        "unlinked" => rng.pick(&["none", "406c616e654e6f74466f756e64", "-"]).to_string(),
+                        _ => "none".into(),
+                    };
+                    ops.push(format!("send a{} {} {} {} {}", a, kind, hs(node), hs(lane), body));
+                }
+            }
+            77..=88 if !dls.is_empty() || n_agents_upper > 0 => {
+                let k = rng.range(2, 9);
+                let mut srcs = vec![];
+                for _ in 0..k {
+                    if !dls.is_empty() && (n_agents_upper == 0 || rng.chance(1, 2)) {
+                        srcs.push(format!("d{}", rng.pick(&dls)));
+                    } else {
+                        srcs.push(format!("a{}", rng.below(n_agents_upper.max(1) as u64)));
+                    }
+                }
+                ops.push(format!("burst {}", srcs.join(" ")));
+            }
+            89..=93 if !dls.is_empty() => {
+                let i = rng.below(dls.len() as u64) as usize;
+                ops.push(format!("detach d{}", dls.remove(i)));
+            }
+            94..=96 if n_agents_upper > 0 => {
+                ops.push(format!("detach a{}", rng.below(n_agents_upper as u64)));
+            }
+            97 => {
+                resolvable = R_NODES.iter().copied().filter(|_| rng.chance(1, 2)).collect();
+                ops.push(format!("agents {}", resolvable.iter().map(|n| hs(n)).collect::<Vec<_>>().join(" ")).trim().to_string());
+            }
+            98 => ops.push("stop".into()),
+            _ => {}
+        }
+    }
+    ops
+}
+
+fn is_route_op(op: &str) -> bool {
+    matches!(op.split_whitespace().next(), Some("agents" | "attach" | "in" | "send" | "burst" | "detach" | "stop"))
+}
+
 fn gen_pure_case(rng: &mut Rng, t: &mut Trace) {
     // the ops are independent (stateless components): short cases, so that one finding does not mask the next
     for _ in 0..rng.range(1, 3) {
@@ -384,6 +983,10 @@ fn main() {
                 match engine.as_str() {
                     "pure" => gen_pure_case(&mut rng, &mut t),
                     "fuzz" => gen_fuzz_case(&mut rng, &mut t),
+                    "route" => {
+                        let ops = gen_route_ops(&mut rng);
+                        sock::run_case(&ops, &mut t);
+                    }
                     other => panic!("unknown engine {}", other),
                 }
             }
@@ -393,6 +996,10 @@ fn main() {
             let mut t = Trace::create(&out);
             for (i, case) in ops.iter().enumerate() {
                 t.case(i);
+                if case.first().map(|o| is_route_op(o)).unwrap_or(false) {
+                    sock::run_case(case, &mut t);
+                    continue;
+                }
                 for op in case {
                     let o = exec_pure(op);
                     t.op(op, o);
